@@ -1145,7 +1145,9 @@ class Emitter:
                 if fnm in fn_out or fnm in s.stubs: continue
                 f = s.m.fns.get(fnm)
                 if f is None or f.body is None: fn_out[fnm] = None; continue
+                s.memptr_called = set()
                 fn_out[fnm] = s.emit_fn(f)
+                fwork += list(s.memptr_called)   # member-pointer dispatch targets of functions reached through initialisers
                 for g in set(re.findall(r'@(?:"(?:[^"\\]|\\.)*"|[-a-zA-Z$._0-9]+)', f.body)):
                     if g in s.m.fns: fwork.append(g)
                     elif g in s.m.globals and g not in gl_out and g not in gwork: gwork.append(g)
